@@ -5,6 +5,7 @@ package main
 //   cfg k=v…           build the session (role, BeginString, chunk, reset flags, persist, latency, hb, initial counters)
 //   connect | in f… | in garbage | arrive f… | pop | timeout hb|peer|logon|logout | disc | stop
 //   send f… | flush | stime in|out|new | rtime n   (CheckResetTime with the clock at rtimeBase + n seconds)
+// cfg lsp=1 sets EnableLastMsgSeqNumProcessed (tag 369 on every outbound header).
 // cfg rst=n builds the session with ResetSeqTime = n seconds of the day (UTC, HH:MM:SS); rst=- leaves it unset.
 // Inbound messages are `tag=value` lists in wire order (without 9 and 10); `@n` is a UTCTimestamp now+n seconds.
 // Observation: status | ordered observations… ; ctr S T ; st State [stash k,… cur fin] ; q n ; ib n ; stopped b
@@ -139,6 +140,9 @@ func (s *sessImpl) build(kv map[string]string) string {
 			panic("bad op: rst out of range")
 		}
 		st.Set(config.ResetSeqTime, fmt.Sprintf("%02d:%02d:%02d", n/3600, n/60%60, n%60))
+	}
+	if kv["lsp"] == "1" {
+		st.Set(config.EnableLastMsgSeqNumProcessed, "Y")
 	}
 	if kv["sched"] == "1" {
 		now := time.Now().UTC()
@@ -803,7 +807,7 @@ func genSess(r *rng, tier string, idx int, o *out, do func(string) string) strin
 		g.rst = pickInt(r, []int{0, 1, 3600, 43200, 86399, r.intn(86400), r.intn(86400)})
 		rst = strconv.Itoa(g.rst)
 	}
-	cfg += " rst=" + rst
+	cfg += " rst=" + rst + " lsp=" + b(1, 4)
 	g.clock = 86400*(1+r.intn(4)) + r.intn(86400)
 	if g.rst >= 0 && r.chance(3, 4) {
 		g.clock = g.nextResetInstant() - 1 - r.intn(300)
